@@ -160,3 +160,23 @@ package batch
 //@   loop 2
 //@     invariant found != nil
 //@     invariant forall k types.String :: has(found.m, k) == (has(old(found).m, k) || (exists vv types.Value :: $done[vv] && mentions(vv, k)))
+
+// The entry point hands doBatch a well-formed evaluator whose variable list is exactly the request's:
+// every variable of the request once, with the value list the caller gave for it, unaltered (C05: the
+// callback is invoked for each element of the Cartesian product of *these* lists), and the request parts
+// as given. Assumed of the policy iterator: it yields non-nil policies (as for cedar.Authorize).
+//@ spec func varItem(vs []variableItem, k types.String) bool = exists i int :: 0 <= i && i < len(vs) && vs[i].Key == k
+//@ func Authorize
+//@   props C05
+//@   results err
+//@   requires forall id types.PolicyID :: inPS(policies, id) ==> (pol(policies, id) != nil && pol(policies, id).ast != nil)
+//@   assert before "return errors.Join(doBatch(ctx, be), ctx.Err())" lists_unaltered: forall i int :: (0 <= i && i < len(be.Variables)) ==> (has(request.Variables, be.Variables[i].Key) && be.Variables[i].Values == request.Variables[be.Variables[i].Key])
+//@   assert before "return errors.Join(doBatch(ctx, be), ctx.Err())" all_variables: forall k types.String :: has(request.Variables, k) ==> varItem(be.Variables, k)
+//@   assert before "return errors.Join(doBatch(ctx, be), ctx.Err())" request_parts: be.env.Principal == request.Principal && be.env.Action == request.Action && be.env.Resource == request.Resource && be.env.Context == request.Context
+//@   loop 4
+//@     invariant be != nil && !isnil(be.policies) && polsOK(be.policies) && !be.compiled && len(be.Variables) == 0
+//@   loop 5
+//@     invariant be != nil && !isnil(be.Values) && !isnil(be.policies) && polsOK(be.policies) && !be.compiled
+//@     invariant be.env.Principal == request.Principal && be.env.Action == request.Action && be.env.Resource == request.Resource && be.env.Context == request.Context
+//@     invariant forall i int :: (0 <= i && i < len(be.Variables)) ==> ($done[be.Variables[i].Key] && be.Variables[i].Values == request.Variables[be.Variables[i].Key])
+//@     invariant forall k types.String :: $done[k] ==> varItem(be.Variables, k)
